@@ -445,3 +445,370 @@ Section Basic.
       rewrite <- (normalize_pnorm l Hl), map_length. lia.
   Qed.
 End Basic.
+
+(* ------------------------------------------------------------------ products, possibly over different fields.
+   The three operation records refine the SAME abstract field K (base field elements embedded in the extension
+   field): den1, den2, den3 : F_i -> K, and the mixed product multiplies the denotations. *)
+Section Mul3.
+  Context {F1 F2 F3 K : Type} (o1 : fops F1) (o2 : fops F2) (o3 : fops F3) (fk : fieldK K).
+  Context (ok1 : F1 -> Prop) (ok2 : F2 -> Prop) (ok3 : F3 -> Prop) (den1 : F1 -> K) (den2 : F2 -> K) (den3 : F3 -> K).
+  Hypothesis H1 : field_ok o1 fk ok1 den1.
+  Hypothesis H2 : field_ok o2 fk ok2 den2.
+  Hypothesis H3 : field_ok o3 fk ok3 den3.
+  Variable mul12 : F1 -> F2 -> F3.
+  Hypothesis Hmul : forall x y, ok1 x -> ok2 y -> ok3 (mul12 x y) /\ den3 (mul12 x y) = kmul fk (den1 x) (den2 y).
+  Local Notation "0" := (k0 fk).
+  Local Infix "+" := (kadd fk).
+  Local Infix "*" := (kmul fk).
+  Local Notation D1 := (map den1).
+  Local Notation D2 := (map den2).
+  Local Notation D3 := (map den3).
+  Local Notation peq := (peq fk).
+  Add Field kfield_PolyCoreProofs_Mul3 : (kFT fk).
+
+  Lemma add_row_length x b prod : length (add_row o3 mul12 x b prod) = length prod.
+  Proof.
+    revert prod. induction b as [|y b IH]; intros prod; [destruct prod; reflexivity|].
+    destruct prod as [|p prod]; [reflexivity|]. cbn [add_row length]. rewrite IH. reflexivity.
+  Qed.
+  Lemma add_row_spec x b prod : ok1 x -> Forall ok2 b -> Forall ok3 prod ->
+    Forall ok3 (add_row o3 mul12 x b prod) /\
+    peq (D3 (add_row o3 mul12 x b prod)) (padd fk (D3 prod) (pscale fk (den1 x) (firstn (length prod) (D2 b)))).
+  Proof.
+    intros Hx. revert prod. induction b as [|y b IH]; intros prod Hb Hp.
+    - replace (add_row o3 mul12 x [] prod) with prod by (destruct prod; reflexivity). split; [exact Hp|].
+      rewrite firstn_nil. cbn [map pscale]. rewrite padd_nil_r. reflexivity.
+    - destruct prod as [|p prod].
+      + cbn [add_row]. split; [constructor|]. cbn [length firstn map pscale padd]. reflexivity.
+      + inversion Hb; inversion Hp; subst. cbn [add_row length firstn map pscale padd].
+        destruct (IH prod ltac:(assumption) ltac:(assumption)) as [I1 I2].
+        destruct (Hmul x y Hx ltac:(assumption)) as [M1 M2].
+        destruct (fo_add _ _ _ _ H3 p (mul12 x y) ltac:(assumption) M1) as [A1 A2].
+        split; [constructor; assumption|]. apply peq_cons; [rewrite A2, M2; reflexivity|exact I2].
+  Qed.
+  (* the rows of the schoolbook product: prod + a * b, provided prod is long enough *)
+  Lemma mul_rows_spec a b prod : Forall ok1 a -> Forall ok2 b -> Forall ok3 prod ->
+    (length a + length b <= length prod + 1)%nat ->
+    Forall ok3 (mul_rows o3 mul12 a b prod) /\ length (mul_rows o3 mul12 a b prod) = length prod /\
+    peq (D3 (mul_rows o3 mul12 a b prod)) (padd fk (D3 prod) (pmul fk (D1 a) (D2 b))).
+  Proof.
+    revert prod. induction a as [|x a IH]; intros prod Ha Hb Hp Hlen.
+    - cbn [mul_rows map pmul]. rewrite padd_nil_r. split; [exact Hp|]. split; reflexivity.
+    - inversion Ha as [|? ? Hx Ha']; subst. cbn [mul_rows].
+      destruct (add_row_spec x b prod Hx Hb Hp) as [R1 R2]. pose proof (add_row_length x b prod) as RL.
+      destruct (add_row o3 mul12 x b prod) as [|p0 rest] eqn:E.
+      + (* prod = [] : then b = [] and a = [] *)
+        destruct prod; [|discriminate]. cbn [length] in Hlen. destruct b; [|cbn [length] in Hlen; lia].
+        split; [constructor|]. split; [reflexivity|]. cbn [map]. apply peq_sym. apply peq_nil_pzero.
+        apply pmul_pzero_r. intros i. apply coeff_nil.
+      + inversion R1 as [|? ? Hp0 Hrest]; subst. cbn [length] in RL.
+        destruct (IH rest Ha' Hb Hrest ltac:(cbn [length] in Hlen; lia)) as [I1 [I2 I3]].
+        split; [constructor; assumption|]. split; [cbn [length]; lia|].
+        cbn [map]. cbn [map] in R2.
+        (* p0 :: (rest + a*b)  =  (p0 :: rest) + X (a*b)  =  prod + x b + X (a*b) *)
+        assert (Efn : peq (firstn (length prod) (D2 b)) (D2 b)).
+        { rewrite firstn_all2; [reflexivity|]. rewrite map_length. cbn [length] in Hlen. lia. }
+        rewrite Efn in R2.
+        transitivity (padd fk (den3 p0 :: D3 rest) (0 :: pmul fk (D1 a) (D2 b))).
+        * cbn [padd]. apply peq_cons; [ring|exact I3].
+        * rewrite R2. cbn [pmul]. rewrite <- padd_assoc. reflexivity.
+  Qed.
+
+  (* naive_multiply (and hence `*` and the arm of `multiply` below the threshold): the ring product *)
+  Theorem naive_multiply_gen_spec a b : Forall ok1 a -> Forall ok2 b ->
+    Forall ok3 (poly_naive_multiply_gen o1 o2 o3 mul12 a b) /\
+    peq (D3 (poly_naive_multiply_gen o1 o2 o3 mul12 a b)) (pmul fk (D1 a) (D2 b)).
+  Proof.
+    intros Ha Hb. unfold poly_naive_multiply_gen.
+    destruct ((poly_degree o1 a <? 0) || (poly_degree o2 b <? 0)) eqn:E.
+    - split; [constructor|]. cbn [map]. apply peq_sym. apply peq_nil_pzero. apply orb_true_iff in E. destruct E as [E|E]; apply Z.ltb_lt in E.
+      + apply pmul_pzero_l. apply (degree_neg_pzero o1 fk ok1 den1 H1 a Ha). exact E.
+      + apply pmul_pzero_r. apply (degree_neg_pzero o2 fk ok2 den2 H2 b Hb). exact E.
+    - apply orb_false_iff in E. destruct E as [Ea Eb]. apply Z.ltb_ge in Ea, Eb.
+      pose proof (degree_lt_len o1 a) as La. pose proof (degree_lt_len o2 b) as Lb.
+      destruct (mul_rows_spec (take (poly_degree o1 a + 1)%Z a) (take (poly_degree o2 b + 1)%Z b)
+                  (zrepeat (fzero o3) (poly_degree o1 a + poly_degree o2 b + 1)%Z)) as [M1 [M2 M3]].
+      + apply Forall_take. exact Ha.
+      + apply Forall_take. exact Hb.
+      + apply Forall_zrepeat. exact (ok0 o3 fk ok3 den3 H3).
+      + unfold take, zrepeat. rewrite !firstn_length, repeat_length. unfold zlen in La, Lb. lia.
+      + split; [exact M1|]. rewrite M3.
+        rewrite (D_take_peq o1 fk ok1 den1 H1 a Ha), (D_take_peq o2 fk ok2 den2 H2 b Hb).
+        rewrite map_zrepeat, (den0 o3 fk ok3 den3 H3). unfold zrepeat.
+        transitivity (padd fk [] (pmul fk (D1 a) (D2 b))); [|reflexivity].
+        apply padd_peq; [|reflexivity]. apply peq_nil_pzero. intros i. apply coeff_repeat0.
+  Qed.
+  (* the result of naive_multiply stores no leading zero: its length is deg a + deg b + 1 (or 0) *)
+  Lemma naive_multiply_gen_length a b :
+    zlen (poly_naive_multiply_gen o1 o2 o3 mul12 a b) =
+    if (poly_degree o1 a <? 0) || (poly_degree o2 b <? 0) then 0%Z else (poly_degree o1 a + poly_degree o2 b + 1)%Z.
+  Proof.
+    unfold poly_naive_multiply_gen. destruct ((poly_degree o1 a <? 0) || (poly_degree o2 b <? 0)) eqn:E; [reflexivity|].
+    apply orb_false_iff in E. destruct E as [Ea Eb]. apply Z.ltb_ge in Ea, Eb.
+    pose proof (degree_lt_len o1 a) as La. pose proof (degree_lt_len o2 b) as Lb.
+    assert (G : forall a' b' prod, (length a' + length b' <= length prod + 1)%nat ->
+                length (mul_rows o3 mul12 a' b' prod) = length prod).
+    { induction a' as [|x a' IH]; intros b' prod Hlen; [reflexivity|]. cbn [mul_rows].
+      pose proof (add_row_length x b' prod) as RL. destruct (add_row o3 mul12 x b' prod) as [|p0 rest].
+      - destruct prod; [reflexivity|discriminate].
+      - cbn [length] in *. rewrite IH by lia. exact RL. }
+    unfold zlen. rewrite G.
+    - unfold zrepeat. rewrite repeat_length. lia.
+    - unfold take, zrepeat. rewrite !firstn_length, repeat_length. unfold zlen in La, Lb. lia.
+  Qed.
+End Mul3.
+
+(* ------------------------------------------------------------------ same-field family: squares and powers *)
+Section Same.
+  Context {F K : Type} (o : fops F) (fk : fieldK K) (ok : F -> Prop) (den : F -> K).
+  Hypothesis H : field_ok o fk ok den.
+  Local Notation "0" := (k0 fk).
+  Local Notation "1" := (k1 fk).
+  Local Infix "+" := (kadd fk).
+  Local Infix "*" := (kmul fk).
+  Local Notation D := (map den).
+  Local Notation okl := (Forall ok).
+  Local Notation peq := (peq fk).
+  Local Notation pmul := (pmul fk).
+  Local Notation padd := (padd fk).
+  Local Notation pscale := (pscale fk).
+  Add Field kfield_PolyCoreProofs_Same : (kFT fk).
+
+  Lemma Hmul_same : forall x y, ok x -> ok y -> ok (fmul o x y) /\ den (fmul o x y) = den x * den y.
+  Proof. exact (fo_mul _ _ _ _ H). Qed.
+
+  (* a list that stores no leading zero *)
+  Definition nostored (l : list F) : Prop := zlen l = (poly_degree o l + 1)%Z.
+  (* `good p acc`: acc is a well-formed representation of p without stored zeros *)
+  Definition good (p : list K) (acc : list F) : Prop := okl acc /\ nostored acc /\ peq (D acc) p.
+  Lemma good_peq p q acc : peq p q -> good p acc -> good q acc.
+  Proof. intros E [G1 [G2 G3]]. split; [exact G1|]. split; [exact G2|]. rewrite G3. exact E. Qed.
+
+  Lemma normalize_idem l : okl l -> poly_normalize o (poly_normalize o l) = poly_normalize o l.
+  Proof.
+    intros Hl. pose proof (normalize_ok o ok l Hl) as N1.
+    pose proof (normalize_ok o ok _ N1) as N2.
+    apply (D_inj o fk ok den H _ _ N2 N1).
+    rewrite (normalize_pnorm o fk ok den H _ N1), (normalize_pnorm o fk ok den H l Hl). apply pnorm_idem.
+  Qed.
+  Lemma degree_normalize l : okl l -> poly_degree o (poly_normalize o l) = poly_degree o l.
+  Proof. intros Hl. unfold poly_degree. rewrite (normalize_idem l Hl). reflexivity. Qed.
+  Lemma nostored_normalize l : okl l -> nostored (poly_normalize o l).
+  Proof. intros Hl. unfold nostored, poly_degree. rewrite (normalize_idem l Hl). lia. Qed.
+  Lemma nostored_iff l : nostored l <-> poly_normalize o l = l.
+  Proof.
+    unfold nostored, poly_degree, zlen. split.
+    - intros E. rewrite (normalize_prefix o l). replace (length (poly_normalize o l)) with (length l) by lia. apply firstn_all.
+    - intros ->. lia.
+  Qed.
+  Lemma good_normalize l : okl l -> good (D l) (poly_normalize o l).
+  Proof.
+    intros Hl. split; [apply (normalize_ok o ok); exact Hl|]. split; [apply nostored_normalize; exact Hl|].
+    apply (normalize_peq o fk ok den H). exact Hl.
+  Qed.
+
+  (* naive multiplication in one field *)
+  Theorem naive_multiply_spec a b : okl a -> okl b ->
+    okl (poly_naive_multiply o a b) /\ peq (D (poly_naive_multiply o a b)) (pmul (D a) (D b)).
+  Proof. intros Ha Hb. exact (naive_multiply_gen_spec o o o fk ok ok ok den den den H H H (fmul o) Hmul_same a b Ha Hb). Qed.
+  Lemma naive_multiply_nostored a b : okl a -> okl b -> nostored (poly_naive_multiply o a b).
+  Proof.
+    intros Ha Hb. unfold nostored. destruct (naive_multiply_spec a b Ha Hb) as [S1 S2].
+    unfold poly_naive_multiply.
+    rewrite naive_multiply_gen_length with (fk := fk) (ok1 := ok) (ok2 := ok) (ok3 := ok) (den1 := den) (den2 := den) (den3 := den);
+      [|exact Hmul_same].
+    fold (poly_naive_multiply o a b).
+    rewrite (degree_pdeg o fk ok den H _ S1), (pdeg_peq fk _ _ S2).
+    destruct ((poly_degree o a <? 0) || (poly_degree o b <? 0)) eqn:E.
+    - assert (Z : pzero fk (pmul (D a) (D b))).
+      { apply orb_true_iff in E. destruct E as [E|E]; apply Z.ltb_lt in E.
+        - apply pmul_pzero_l. apply (degree_neg_pzero o fk ok den H a Ha). exact E.
+        - apply pmul_pzero_r. apply (degree_neg_pzero o fk ok den H b Hb). exact E. }
+      apply pdeg_neg_iff in Z. lia.
+    - apply orb_false_iff in E. destruct E as [Ea Eb]. apply Z.ltb_ge in Ea, Eb.
+      rewrite (degree_pdeg o fk ok den H a Ha) in *. rewrite (degree_pdeg o fk ok den H b Hb) in *.
+      rewrite pdeg_pmul by assumption. reflexivity.
+  Qed.
+  Lemma naive_multiply_good a b p q : good p a -> okl b -> peq (D b) q -> good (pmul p q) (poly_naive_multiply o a b).
+  Proof.
+    intros [A1 [A2 A3]] Hb E. destruct (naive_multiply_spec a b A1 Hb) as [S1 S2].
+    split; [exact S1|]. split; [apply naive_multiply_nostored; assumption|]. rewrite S2, A3, E. reflexivity.
+  Qed.
+
+  (* ---- the schoolbook squaring loops *)
+  Lemma add_row_opt_spec x cs rest : ok x -> okl cs -> okl rest -> (length cs <= length rest)%nat ->
+    exists t, add_row_opt o x cs rest = Some t /\ okl t /\ length t = length rest /\
+              peq (D t) (padd (D rest) (pscale (den x) (D cs))).
+  Proof.
+    intros Hx. revert rest. induction cs as [|c cs IH]; intros rest Hc Hr Hlen.
+    - exists rest. split; [reflexivity|]. split; [exact Hr|]. split; [reflexivity|].
+      cbn [map]. unfold PolySpec.pscale. cbn [map]. rewrite padd_nil_r. reflexivity.
+    - destruct rest as [|r rest]; [cbn [length] in Hlen; lia|]. inversion Hc; inversion Hr; subst.
+      destruct (IH rest ltac:(assumption) ltac:(assumption) ltac:(cbn [length] in Hlen; lia)) as [t [T1 [T2 [T3 T4]]]].
+      cbn [add_row_opt]. rewrite T1. eexists. split; [reflexivity|].
+      destruct (fo_mul _ _ _ _ H x c Hx ltac:(assumption)) as [M1 M2].
+      destruct (fo_add _ _ _ _ H r _ ltac:(assumption) M1) as [A1 A2].
+      split; [constructor; assumption|]. split; [cbn [length]; lia|].
+      cbn [map]. unfold PolySpec.pscale. cbn [map PolySpec.padd]. apply peq_cons; [rewrite A2, M2; reflexivity|exact T4].
+  Qed.
+  (* (a + X p)^2 = a^2 + X (2 a p + X p^2) *)
+  Lemma pmul_square_cons a p :
+    peq (pmul (a :: p) (a :: p)) ((a * a) :: padd (pscale ((1 + 1) * a) p) (0 :: pmul p p)).
+  Proof.
+    apply peq_intro. intros k. rewrite coeff_pmul_cons. destruct k as [|k].
+    - rewrite !coeff_cons_0. ring.
+    - rewrite !coeff_cons_S, pmul_cons_r, coeff_padd, coeff_pscale. destruct k as [|k].
+      + rewrite !coeff_cons_0. ring.
+      + rewrite !coeff_cons_S. ring.
+  Qed.
+  Lemma sq_rows_spec cs rest : okl cs -> okl rest -> (2 * length cs <= length rest + 1)%nat ->
+    exists r, sq_rows o cs rest = Some r /\ okl r /\ length r = length rest /\
+              peq (D r) (padd (D rest) (pmul (D cs) (D cs))).
+  Proof.
+    revert rest. induction cs as [|ci cs IH]; intros rest Hc Hr Hlen.
+    - exists rest. split; [reflexivity|]. split; [exact Hr|]. split; [reflexivity|]. cbn [map PolySpec.pmul].
+      rewrite padd_nil_r. reflexivity.
+    - destruct rest as [|r0 rt]; [cbn [length] in Hlen; lia|]. inversion Hc as [|? ? Hci Hcs]; inversion Hr as [|? ? Hr0 Hrt]; subst.
+      cbn [sq_rows].
+      destruct (fo_add _ _ _ _ H _ _ (ok1 o fk ok den H) (ok1 o fk ok den H)) as [W1 W2].
+      destruct (fo_mul _ _ _ _ H _ ci W1 Hci) as [X1 X2].
+      destruct (add_row_opt_spec (fmul o (fadd o (fone o) (fone o)) ci) cs rt X1 Hcs Hrt ltac:(cbn [length] in Hlen; lia))
+        as [rt' [T1 [T2 [T3 T4]]]].
+      rewrite T1.
+      destruct (fo_mul _ _ _ _ H ci ci Hci Hci) as [Q1 Q2].
+      destruct (fo_add _ _ _ _ H r0 _ Hr0 Q1) as [P1 P2].
+      rewrite X2, W2, (den1 o fk ok den H) in T4.
+      destruct rt' as [|r1 rest'].
+      + (* rt = [] hence cs = [] *)
+        destruct rt; [|discriminate]. destruct cs; [|cbn [length] in Hlen; lia]. cbn [sq_rows].
+        eexists. split; [reflexivity|]. split; [constructor; [exact P1|constructor]|]. split; [reflexivity|].
+        cbn [map]. rewrite pmul_square_cons. apply peq_intro. intros [|[|k]];
+          rewrite ?coeff_padd, ?coeff_cons_0, ?coeff_cons_S, ?coeff_padd, ?coeff_pscale, ?coeff_nil, ?coeff_cons_0, ?coeff_cons_S, ?coeff_nil, ?P2, ?Q2; try ring.
+        rewrite coeff_pmul_nil. ring.
+      + inversion T2 as [|? ? Hr1 Hrest']; subst. cbn [length] in T3.
+        destruct (IH rest' Hcs Hrest' ltac:(cbn [length] in Hlen; lia)) as [t [S1 [S2 [S3 S4]]]].
+        rewrite S1. eexists. split; [reflexivity|]. split; [constructor; [exact P1|constructor; assumption]|].
+        split; [cbn [length]; lia|].
+        cbn [map]. cbn [map] in T4. rewrite pmul_square_cons.
+        apply peq_intro. intros [|k].
+        * rewrite coeff_padd, !coeff_cons_0, P2, Q2. reflexivity.
+        * rewrite coeff_padd, !coeff_cons_S, coeff_padd.
+          pose proof (peq_elim fk _ _ T4 k) as T4k. rewrite coeff_padd in T4k.
+          transitivity (coeff fk (den r1 :: D rest') k + coeff fk (0 :: pmul (D cs) (D cs)) k); [|rewrite T4k; ring].
+          destruct k as [|k].
+          -- rewrite !coeff_cons_0. ring.
+          -- rewrite !coeff_cons_S, (peq_elim fk _ _ S4 k), coeff_padd. ring.
+  Qed.
+
+  Theorem slow_square_v0_spec l : okl l -> nostored l ->
+    exists r, poly_slow_square_v0 o l = Some r /\ good (pmul (D l) (D l)) r.
+  Proof.
+    intros Hl Hn. unfold poly_slow_square_v0. destruct (poly_degree o l =? -1) eqn:E.
+    - apply Z.eqb_eq in E. exists []. split; [reflexivity|]. unfold nostored in Hn. rewrite E in Hn.
+      destruct l; [|unfold zlen in Hn; cbn [length] in Hn; lia].
+      split; [constructor|]. split; [reflexivity|]. reflexivity.
+    - apply Z.eqb_neq in E. pose proof (degree_ge o l) as G.
+      destruct (sq_rows_spec l (zrepeat (fzero o) (poly_degree o l * 2 + 1)%Z) Hl
+                  (Forall_zrepeat _ _ _ (ok0 o fk ok den H))) as [r [R1 [R2 [R3 R4]]]].
+      { unfold zrepeat. rewrite repeat_length. unfold nostored, zlen in Hn. lia. }
+      exists r. split; [exact R1|]. split; [exact R2|].
+      assert (PE : peq (D r) (pmul (D l) (D l))).
+      { rewrite R4, map_zrepeat, (den0 o fk ok den H). unfold zrepeat.
+        transitivity (padd [] (pmul (D l) (D l))); [|reflexivity]. apply padd_peq; [|reflexivity].
+        apply peq_nil_pzero. intros i. apply coeff_repeat0. }
+      split; [|exact PE]. unfold nostored.
+      rewrite (degree_pdeg o fk ok den H r R2), (pdeg_peq fk _ _ PE).
+      rewrite (degree_pdeg o fk ok den H l Hl) in *. rewrite pdeg_pmul by lia.
+      unfold zlen. rewrite R3. unfold zrepeat. rewrite repeat_length. lia.
+  Qed.
+  (* the code after the repair: no hypothesis on the storage *)
+  Theorem slow_square_v1_spec l : okl l -> exists r, poly_slow_square_v1 o l = Some r /\ good (pmul (D l) (D l)) r.
+  Proof.
+    intros Hl. unfold poly_slow_square_v1. destruct (good_normalize l Hl) as [N1 [N2 N3]].
+    destruct (slow_square_v0_spec _ N1 N2) as [r [R1 R2]]. exists r. split; [exact R1|].
+    apply (good_peq (pmul (D (poly_normalize o l)) (D (poly_normalize o l)))); [rewrite N3; reflexivity|exact R2].
+  Qed.
+  (* the schoolbook arm of `square` after the repair *)
+  Theorem square_v1_slow_arm ntt intt l : okl l -> (poly_degree o l * 2 + 1 <= SQUARE_FAST_CUTOFF_LEN)%Z ->
+    exists r, poly_square_v1 o ntt intt l = Some r /\ good (pmul (D l) (D l)) r.
+  Proof.
+    intros Hl Hc. unfold poly_square_v1. destruct (slow_square_v1_spec l Hl) as [r [R1 R2]]. exists r. split; [|exact R2].
+    unfold poly_slow_square_v1, poly_slow_square_v0 in R1. rewrite (degree_normalize l Hl) in R1.
+    destruct (poly_degree o l =? -1); [exact R1|].
+    destruct (poly_degree o l * 2 + 1 >? SQUARE_FAST_CUTOFF_LEN)%Z eqn:E; [apply Z.gtb_lt in E; lia|]. exact R1.
+  Qed.
+
+  (* ---- square-and-multiply *)
+  Lemma good_one : good (pone fk) (poly_one o).
+  Proof.
+    split; [apply (one_ok o fk ok den H)|]. split; [|rewrite (one_D o fk ok den H); reflexivity].
+    unfold nostored, poly_degree, poly_one. rewrite normalize_cons, normalize_nil.
+    assert (E : fis_zero o (fone o) = false).
+    { apply (is0_false_iff o fk ok den H); [exact (ok1 o fk ok den H)|]. rewrite (den1 o fk ok den H). apply k1_neq_0. }
+    rewrite E. reflexivity.
+  Qed.
+  Lemma bit_step e k : (0 <= e)%Z ->
+    (e mod 2 ^ (Z.of_nat (S k)) = (if Z.testbit e (Z.of_nat k) then 2 ^ Z.of_nat k else 0) + e mod 2 ^ Z.of_nat k)%Z.
+  Proof.
+    intros He. rewrite Nat2Z.inj_succ, Z.pow_succ_r by lia. rewrite (Z.mul_comm 2).
+    rewrite Z.rem_mul_r by lia.
+    pose proof (Z.testbit_spec' e (Z.of_nat k) ltac:(lia)) as T. destruct (Z.testbit e (Z.of_nat k)); cbn [Z.b2z] in T; rewrite <- T; lia.
+  Qed.
+  Lemma pow_go_spec sq mulself base :
+    (forall acc p, good p acc -> exists r, sq acc = Some r /\ good (pmul p p) r) ->
+    (forall acc p, good p acc -> exists r, mulself acc = Some r /\ good (pmul p base) r) ->
+    forall k e acc n, (0 <= e)%Z -> good (ppow fk base n) acc ->
+    exists r, pow_go sq mulself k e acc = Some r /\
+              good (ppow fk base (n * 2 ^ k + Z.to_nat (e mod 2 ^ Z.of_nat k))%nat) r.
+  Proof.
+    intros Hsq Hmu. induction k as [|k IH]; intros e acc n He G.
+    - exists acc. split; [reflexivity|]. cbn [pow_go]. rewrite Z.mod_1_r. cbn [Z.to_nat Nat.pow].
+      replace (n * 1 + 0)%nat with n by lia. exact G.
+    - cbn [pow_go]. destruct (Hsq acc _ G) as [acc1 [S1 S2]]. rewrite S1.
+      assert (G2 : good (ppow fk base (n + n)) acc1).
+      { apply (good_peq (pmul (ppow fk base n) (ppow fk base n))); [symmetry; apply ppow_add|exact S2]. }
+      destruct (Z.testbit e (Z.of_nat k)) eqn:B.
+      + destruct (Hmu acc1 _ G2) as [acc2 [M1 M2]]. rewrite M1.
+        assert (G3 : good (ppow fk base (n + n + 1)) acc2).
+        { apply (good_peq (pmul (ppow fk base (n + n)) base)); [|exact M2].
+          rewrite (ppow_add fk base (n + n) 1). apply pmul_peq; [reflexivity|]. symmetry. apply ppow_1. }
+        destruct (IH e acc2 _ He G3) as [r [R1 R2]]. exists r. split; [exact R1|].
+        rewrite (bit_step e k He), B.
+        replace (n * 2 ^ S k + Z.to_nat (2 ^ Z.of_nat k + e mod 2 ^ Z.of_nat k))%nat
+          with ((n + n + 1) * 2 ^ k + Z.to_nat (e mod 2 ^ Z.of_nat k))%nat; [exact R2|].
+        pose proof (Z.mod_pos_bound e (2 ^ Z.of_nat k) ltac:(lia)).
+        rewrite Z2Nat.inj_add by lia. rewrite Z2Nat.inj_pow by lia. rewrite Nat2Z.id. cbn [Nat.pow]. change (Z.to_nat 2) with 2%nat. lia.
+      + destruct (IH e acc1 _ He G2) as [r [R1 R2]]. exists r. split; [exact R1|].
+        rewrite (bit_step e k He), B. rewrite Z.add_0_l.
+        replace (n * 2 ^ S k)%nat with ((n + n) * 2 ^ k)%nat by (cbn [Nat.pow]; lia). exact R2.
+  Qed.
+  Theorem pow_with_spec sq mulself l e : okl l -> (0 <= e)%Z ->
+    (forall acc p, good p acc -> exists r, sq acc = Some r /\ good (pmul p p) r) ->
+    (forall acc p, good p acc -> exists r, mulself acc = Some r /\ good (pmul p (D l)) r) ->
+    exists r, poly_pow_with o sq mulself l e = Some r /\ okl r /\ peq (D r) (ppow fk (D l) (Z.to_nat e)).
+  Proof.
+    intros Hl He Hsq Hmu. unfold poly_pow_with. destruct (e =? 0)%Z eqn:E0.
+    - apply Z.eqb_eq in E0. subst e. exists (poly_one o). split; [reflexivity|]. split; [apply (one_ok o fk ok den H)|].
+      rewrite (one_D o fk ok den H). reflexivity.
+    - apply Z.eqb_neq in E0. destruct (poly_degree o l <? 0)%Z eqn:Ed.
+      + apply Z.ltb_lt in Ed. exists []. split; [reflexivity|]. split; [constructor|].
+        apply (degree_neg_pzero o fk ok den H l Hl) in Ed. cbn [map]. symmetry. apply peq_nil_pzero.
+        destruct (Z.to_nat e) eqn:En; [lia|]. cbn [ppow]. apply pmul_pzero_l. exact Ed.
+      + destruct (pow_go_spec sq mulself (D l) Hsq Hmu (Z.to_nat (bitlen e)) e (poly_one o) O He) as [r [R1 [R2 [R3 R4]]]].
+        { cbn [ppow]. exact good_one. }
+        exists r. split; [exact R1|]. split; [exact R2|]. rewrite R4.
+        replace (0 * 2 ^ Z.to_nat (bitlen e) + Z.to_nat (e mod 2 ^ Z.of_nat (Z.to_nat (bitlen e))))%nat with (Z.to_nat e); [reflexivity|].
+        unfold bitlen. rewrite (proj2 (Z.eqb_neq e 0) E0).
+        pose proof (Z.log2_nonneg e). rewrite Z2Nat.id by lia.
+        rewrite Z.mod_small; [lia|]. split; [lia|]. apply Z.log2_lt_pow2; lia.
+  Qed.
+  (* pow = repeated product (with the repaired slow_square and the naive product, as in the code) *)
+  Theorem pow_spec l e : okl l -> (0 <= e)%Z ->
+    exists r, poly_pow o l e = Some r /\ okl r /\ peq (D r) (ppow fk (D l) (Z.to_nat e)).
+  Proof.
+    intros Hl He. unfold poly_pow. apply pow_with_spec; [exact Hl|exact He| |].
+    - intros acc p [G1 [G2 G3]]. unfold poly_slow_square. destruct (slow_square_v1_spec acc G1) as [r [R1 R2]].
+      exists r. split; [exact R1|]. apply (good_peq (pmul (D acc) (D acc))); [rewrite G3; reflexivity|exact R2].
+    - intros acc p G. eexists. split; [reflexivity|]. unfold poly_mul. apply naive_multiply_good; [exact G|exact Hl|reflexivity].
+  Qed.
+End Same.
